@@ -54,7 +54,11 @@ func hashM(m *gozxing.BitMatrix) string {
 
 func errKind(e error) string {
 	s := fmt.Sprintf("%T", e)
-	return "ERR(" + s + ":" + e.Error() + ")"
+	msg := e.Error()
+	if i := strings.Index(msg, "\n"); i >= 0 {
+		msg = msg[:i] // no stack frames: the text must be the same in the instrumented and the plain build
+	}
+	return "ERR(" + s + ":" + msg + ")"
 }
 
 func write(w gozxing.Writer, c string, f gozxing.BarcodeFormat, wd, ht int, h H) string {
@@ -437,6 +441,7 @@ var needs = map[string][]string{
 	"dm-r-rsizes":        {"dm-rsize-0", "dm-rsize-1", "dm-rsize-2", "dm-rsize-3", "dm-rsize-4", "dm-rsize-5"},
 	"code128-r-sideways": {"code128-sideways"}, "lum-rgb-yuv": {"qr-loc"},
 	"misc-api":    {"dm-pure", "qr-pure", "upca", "aztec-c"},
+	"fail-qr-damaged": {"qr-pure"}, "fail-dm-damaged": {"dm-pure"}, "fail-1d-wrong-check": {"ean13"}, "fail-charset-hints": {"qr-pure"},
 	"rows-upcean": {"ean13", "ean8", "upca", "upce"}, "rows-other": {"code39", "code93", "code128", "itf", "codabar"}, "rss14-r-reset": {"rss14"},
 	"code93-r": {"code93"}, "code128-r": {"code128"}, "itf-r": {"itf"}, "codabar-r": {"codabar"}, "rss14-r": {"rss14"},
 }
@@ -761,6 +766,106 @@ func all() []opLit {
 			sb.WriteString(result(oned.NewUPCAReader().DecodeWithoutHints(bmp)) + ";")
 			bmp, _ = gozxing.NewBinaryBitmapFromImage(img("aztec-c"))
 			sb.WriteString(result(aztec.NewAztecReader().DecodeWithoutHints(bmp)) + ";")
+			return sb.String()
+		}},
+		// operations that END IN AN ERROR: failure exits have their own code (clean-up, early returns);
+		// they are also used as sequential PROLOGUES of concurrent scenarios
+		{"fail-sample-twisted", func() string {
+			// unit square -> convex trapezoid whose vanishing line crosses the 3x1 grid: the end points
+			// of the row are inside a 32x12 image, the middle point is not
+			im, _ := gozxing.NewBitMatrix(32, 12)
+			im.SetRegion(0, 0, 32, 12)
+			t := common.PerspectiveTransform_QuadrilateralToQuadrilateral(0, 0, 1, 0, 1, 1, 0, 1, 21.625, 5, 25.25, 4.5, 25.25, 6.5, 21.625, 6)
+			m, e := common.NewDefaultGridSampler().SampleGridWithTransform(im, 3, 1, t)
+			if e != nil {
+				return errKind(e)
+			}
+			return hashM(m)
+		}},
+		{"fail-sample-outside", func() string {
+			im, _ := gozxing.NewBitMatrix(20, 20)
+			m, e := common.GridSampler_GetInstance().SampleGrid(im, 5, 5, 0, 0, 5, 0, 5, 5, 0, 5, 30, 30, 40, 30, 40, 40, 30, 40)
+			if e != nil {
+				return errKind(e)
+			}
+			return hashM(m)
+		}},
+		{"fail-2d-noise", func() string {
+			g := image.NewGray(image.Rect(0, 0, 90, 90))
+			for i := range g.Pix {
+				g.Pix[i] = byte(255 * ((i*7 + i/90*13 + (i*i)/5) % 3 / 2))
+			}
+			return read(qrcode.NewQRCodeReader(), g, hard) + ";" + read(datamatrix.NewDataMatrixReader(), g, nil) + ";" + read(aztec.NewAztecReader(), g, nil)
+		}},
+		{"fail-qr-damaged", func() string {
+			g := img("qr-pure")
+			for y := 9; y < g.Rect.Dy(); y++ {
+				for x := 9; x < g.Rect.Dx(); x += 2 {
+					g.Pix[y*g.Stride+x] ^= 0xff
+				}
+			}
+			return read(qrcode.NewQRCodeReader(), g, pure)
+		}},
+		{"fail-dm-damaged", func() string {
+			g := img("dm-pure")
+			for y := 1; y < g.Rect.Dy()-1; y++ {
+				for x := 1; x < g.Rect.Dx()-1; x += 2 {
+					g.Pix[y*g.Stride+x] ^= 0xff
+				}
+			}
+			return read(datamatrix.NewDataMatrixReader(), g, pure)
+		}},
+		{"fail-1d-blank", func() string {
+			g := image.NewGray(image.Rect(0, 0, 120, 3))
+			for i := range g.Pix {
+				g.Pix[i] = 255
+			}
+			var sb strings.Builder
+			for _, rd := range []gozxing.Reader{oned.NewEAN13Reader(), oned.NewCode128Reader(), oned.NewCode39Reader(), oned.NewCode93Reader(), oned.NewITFReader(), oned.NewCodaBarReader(), oned.NewMultiFormatUPCEANReader(nil), rss.NewRSS14Reader()} {
+				sb.WriteString(read(rd, g, hard) + ";")
+			}
+			return sb.String()
+		}},
+		{"fail-1d-wrong-check", func() string {
+			// an EAN-13 row with a wrong check digit, then one that asks for an add-on that is not there
+			m := refoned.Image(refoned.EAN13("5901234123450"), 1, 12, 12, 1)
+			return read(oned.NewEAN13Reader(), m, nil) + ";" + read(oned.NewEAN13Reader(), img("ean13"), D{gozxing.DecodeHintType_ALLOWED_EAN_EXTENSIONS: []int{5}})
+		}},
+		{"fail-writers-refuse", func() string {
+			return write(qrcode.NewQRCodeWriter(), strings.Repeat("9", 8000), QR, 0, 0, nil) + ";" +
+				write(datamatrix.NewDataMatrixWriter(), strings.Repeat("A", 4000), DM, 0, 0, nil) + ";" +
+				write(oned.NewEAN13Writer(), "5901234123450", gozxing.BarcodeFormat_EAN_13, 0, 0, nil) + ";" +
+				write(oned.NewITFWriter(), "123", gozxing.BarcodeFormat_ITF, 0, 0, nil) + ";" +
+				write(oned.NewCode128Writer(), "ab\u20ac", gozxing.BarcodeFormat_CODE_128, 0, 0, nil) + ";" +
+				write(oned.NewCodaBarWriter(), "A12X", gozxing.BarcodeFormat_CODABAR, 0, 0, nil) + ";" +
+				write(qrcode.NewQRCodeWriter(), "\u20ac", QR, 0, 0, H{gozxing.EncodeHintType_CHARACTER_SET: "ISO-8859-1"}) + ";" +
+				write(qrcode.NewQRCodeWriter(), "x", QR, -1, 5, nil)
+		}},
+		{"fail-rs-overdamaged", func() string {
+			var sb strings.Builder
+			for _, f := range []*reedsolomon.GenericGF{reedsolomon.GenericGF_QR_CODE_FIELD_256, reedsolomon.GenericGF_AZTEC_DATA_12, reedsolomon.GenericGF_AZTEC_PARAM} {
+				w := make([]int, 12)
+				for i := range w {
+					w[i] = (i*5 + 1) % 16
+				}
+				reedsolomon.NewReedSolomonEncoder(f).Encode(w, 4)
+				w[0] ^= 1
+				w[3] ^= 2
+				w[7] ^= 3
+				if e := reedsolomon.NewReedSolomonDecoder(f).Decode(w, 4); e != nil {
+					sb.WriteString("ERR;")
+				} else {
+					sb.WriteString(fmt.Sprint(w, ";"))
+				}
+			}
+			return sb.String()
+		}},
+		{"fail-charset-hints", func() string {
+			var sb strings.Builder
+			for _, n := range []string{"UTF-7", "nope", ""} {
+				sb.WriteString(read(qrcode.NewQRCodeReader(), img("qr-pure"), D{gozxing.DecodeHintType_PURE_BARCODE: true, gozxing.DecodeHintType_CHARACTER_SET: n}) + ";")
+				sb.WriteString(write(qrcode.NewQRCodeWriter(), "x", QR, 0, 0, H{gozxing.EncodeHintType_CHARACTER_SET: n}) + ";")
+			}
 			return sb.String()
 		}},
 		{"bm-parse-a", func() string { return parseRoundTrip(37, 11, 3) }},
